@@ -5,7 +5,8 @@ From Coq Require Import ZArith NArith List Bool Lia.
 From Texel Require Import Chess.Types Chess.Position Chess.PositionSpec Chess.PositionFacts
   Chess.PositionProofs Chess.PositionProofs2 Chess.PositionProofs3 Chess.PositionTheorems Chess.PositionInst
   Chess.PositionExamples Chess.Fen Chess.Spec Chess.BitBoard Chess.MoveGen Chess.MoveGenWF
-  RevGen.RevGen RevGen.RevFacts RevGen.RevAbs RevGen.RevRestore RevGen.RevValid RevGen.RevCand RevGen.RevRaw RevGen.RevLegal.
+  RevGen.RevGen RevGen.RevFacts RevGen.RevAbs RevGen.RevRestore RevGen.RevValid RevGen.RevCand RevGen.RevRaw RevGen.RevLegal
+  RevGen.RevPremise.
 Import ListNotations.
 Local Open Scope N_scope.
 
@@ -86,7 +87,7 @@ Proof.
     - left. reflexivity.
     - exact K. }
   split.
-  - apply legal_specb_spec. exact L.
+  - exact (proj1 (legal_specb_spec (abs epPos) (mkMove 62 45 EMPTY)) L).
   - split.
     + exact H.
     + exact (proj1 H).
@@ -115,10 +116,51 @@ Proof.
   split; [exact H2|]. split; [exact (proj1 H2)|]. split; [exact H3 | exact (proj1 H3)].
 Qed.
 
-(** the un-move list of a concrete position, computed by the model: after 1.e4 from the start
-    position (with an e.p. square the only raw reverse move is the double push) and for the
-    position after Ra1-b1 in kiwipete; consistency facts hold for every entry *)
+(** the un-move list of a concrete position, computed by the model: the position after Ra1-b1 in
+    kiwipete has 30 un-moves (with and without additional e.p. squares); each satisfies the
+    consistency facts above *)
 Example genMoves_example :
-  length (genMoves zk0 (successor zk0 kiwiPos (mkMove 0 1 EMPTY)) false) = 76%nat /\
-  length (genMoves zk0 (successor zk0 kiwiPos (mkMove 0 1 EMPTY)) true) = 76%nat.
-Proof. split; vm_compute; reflexivity. Qed.
+  length (genMoves zk0 (successor zk0 kiwiPos (mkMove 0 1 EMPTY)) false) = 30%nat /\
+  length (genMoves zk0 (successor zk0 kiwiPos (mkMove 0 1 EMPTY)) true) = 30%nat /\
+  forall um, In um (genMoves zk0 (successor zk0 kiwiPos (mkMove 0 1 EMPTY)) false) ->
+    pieceCountsValid (unMakeMove zk0 (successor zk0 kiwiPos (mkMove 0 1 EMPTY)) (um_move um) (um_ui um)) = true.
+Proof.
+  split; [vm_compute; reflexivity|]. split; [vm_compute; reflexivity|].
+  intros um H. apply (consistent_partial zk0 _ false um H).
+Qed.
+
+(** * the double push that leaves a usable e.p. square (complete, given [MoveFacts]) *)
+Theorem complete_doublepush_ep zk (EKZ : emptyKeysZero zk) p m incl :
+  WFrev zk p -> MoveFacts p m ->
+  (incl = true \/ epSquare p = (-1)%Z \/
+   (isPawnPiece (getPiece p (mfrom m)) = true /\ Z.of_N (mto m) = epSquare p)) ->
+  (epSquare (successor zk p m) <> -1)%Z -> CompleteAt zk p m incl.
+Proof.
+  intros Hrev MF Hinc Hne. apply (complete_given_raw zk EKZ p m incl Hrev MF Hinc).
+  apply (raw_doublepush_ep zk p m Hrev MF Hne).
+Qed.
+
+(** "rnbqkbnr/pppp1ppp/8/8/3p4/8/PPP1PPPP/RNBQKBNR w KQkq - 0 3": after e2-e4 the e.p. square e3 stays (d4xe3 is legal) *)
+Definition preEpFEN : list N := [114; 110; 98; 113; 107; 98; 110; 114; 47; 112; 112; 112; 112; 49; 112; 112; 112; 47; 56; 47; 56; 47; 51; 112; 52; 47; 56; 47; 80; 80; 80; 49; 80; 80; 80; 80; 47; 82; 78; 66; 81; 75; 66; 78; 82; 32; 119; 32; 75; 81; 107; 113; 32; 45; 32; 48; 32; 51].
+Definition preEpPos : position := posOf preEpFEN.
+
+Lemma preEpPos_WFrev : WFrev zk0 preEpPos.
+Proof.
+  apply wfrevb_sound; [apply consistentb_sound; vm_compute; reflexivity | vm_compute; reflexivity].
+Qed.
+
+Example complete_example_doublepush :
+  MoveFacts preEpPos (mkMove 12 28 EMPTY) /\
+  epSquare (successor zk0 preEpPos (mkMove 12 28 EMPTY)) = 20%Z /\
+  CompleteAt zk0 preEpPos (mkMove 12 28 EMPTY) false /\
+  genMoves zk0 (successor zk0 preEpPos (mkMove 12 28 EMPTY)) false =
+    [mkUnMove (mkMove 12 28 EMPTY) (mkUndo EMPTY 15 (-1)%Z 0%Z)].
+Proof.
+  assert (MF : MoveFacts preEpPos (mkMove 12 28 EMPTY)) by (apply moveFactsb_sound; vm_compute; reflexivity).
+  assert (E : epSquare (successor zk0 preEpPos (mkMove 12 28 EMPTY)) = 20%Z) by (vm_compute; reflexivity).
+  split; [exact MF|]. split; [exact E|]. split.
+  - apply (complete_doublepush_ep zk0 zk0_emptyKeysZero preEpPos _ false preEpPos_WFrev MF).
+    + right. left. vm_compute. reflexivity.
+    + rewrite E. discriminate.
+  - vm_compute. reflexivity.
+Qed.
